@@ -190,6 +190,12 @@ func canonical(e *env) {
 			b.hash, size, m5, size, s1, size, b.hash, size, m5, size)},
 		[]string{"#cfg 16 100", fmt.Sprintf("store %s %s %s", m5, size, hexs(b.data)),
 			fmt.Sprintf("cfm ; md5.a_b %s %s ; sha256.a_b %s %s ; md5.c %s %s", m5, size, b.hash, size, m5, size)})
+	// large objects through the zstd client: reader closed early, frontend whose stream breaks
+	cases = append(cases,
+		[]string{"#cfg 16 100", "stallget 1 1"},
+		[]string{"#cfg 16 100", "stallget 2 0"},
+		[]string{"#cfg 16 100", "bigget 1024 1", "bigget 768 3", "bigget 1024 2"},
+		[]string{"#cfg 16 100", "bigfront 1024 2", "bigfront 1024 0", "bigfront 768 1"})
 	// the Action Cache client and server back to back, once per digest function
 	for _, fn := range allFunctions {
 		h := strings.Repeat("5a", functionHashLen[fn]/2)
